@@ -206,6 +206,14 @@ class CondGen(object):
                 c2 = c1 if r.random() < 0.5 else r.choice('abAB12')
                 test = '\\ifx ' + c1 + c2
                 self.features.add('ifx-chars')
+            elif r.random() < 0.2:
+                # undefined names: two of them (equal or not) agree, an undefined and a defined one do not
+                u1 = 'zqundef' + alpha(r.randint(0, 5))
+                u2 = r.choice(['zqundef' + alpha(r.randint(0, 5)), 'zqundef' + alpha(r.randint(0, 5)), 'relax', 'zqlate' + alpha(r.randint(0, 2))])
+                if r.random() < 0.3:
+                    u1, u2 = u2, u1
+                test = '\\ifx\\%s\\%s ' % (u1, u2)
+                self.features.add('ifx-undefined-names')
             else:
                 if len(self.plainmacros) < 2 or r.random() < 0.3:
                     nm = 'zqp' + alpha(len(self.plainmacros))
